@@ -246,6 +246,8 @@ type OpIn struct {
 	Del      []int64   `json:"del,omitempty"`
 	None     bool      `json:"none,omitempty"`     // the call is made with NO target at all: Append(), Replace(), Delete()
 	SamePtr  bool      `json:"same_ptr,omitempty"` // a repeated existing target is THE SAME object (same pointer), not an equal copy
+	Array    string    `json:"array,omitempty"`    // the targets are handed over as a Go ARRAY: "values" = &[N]T, "ptrs" = [N]*T
+	Alias    bool      `json:"alias,omitempty"`    // delete: the argument IS the record held by the relation field of the first owner (&owners[0].Rel, owners[0].Rel, &owners[0].Rel[0])
 	AsSlice  bool      `json:"as_slice,omitempty"` // struct handle / Delete: pass the targets as ONE slice argument
 }
 
@@ -595,6 +597,26 @@ func (e *Env) run(in Input) Result {
 					sl = reflect.Append(sl, p)
 					os = append(os, p)
 				}
+				if op.Array != "" && len(os) > 0 {
+					// a Go array as the argument: &[N]T (value elements) or [N]*T (pointer elements)
+					single := r.Kind == "KHasOne" || r.Kind == "KBelongs"
+					if op.Array == "values" || single {
+						arr := reflect.New(reflect.ArrayOf(len(os), r.Elem)).Elem()
+						for i := range os {
+							arr.Index(i).Set(os[i].Elem())
+							os[i] = arr.Index(i).Addr() // ids of new records are written back here
+						}
+						args = append(args, arr.Addr().Interface())
+					} else {
+						arr := reflect.New(reflect.ArrayOf(len(os), reflect.PtrTo(r.Elem))).Elem()
+						for i := range os {
+							arr.Index(i).Set(os[i])
+						}
+						args = append(args, arr.Interface())
+					}
+					objs = append(objs, os)
+					continue
+				}
 				objs = append(objs, os)
 				switch {
 				case r.Kind == "KHasOne" || r.Kind == "KBelongs":
@@ -652,11 +674,49 @@ func (e *Env) run(in Input) Result {
 			if op.AsSlice && len(args) > 0 {
 				args = []interface{}{delSlice.Interface()}
 			}
+			if op.Array != "" && delSlice.Len() > 0 {
+				n := delSlice.Len()
+				if op.Array == "values" {
+					arr := reflect.New(reflect.ArrayOf(n, r.Elem)).Elem()
+					for i := 0; i < n; i++ {
+						arr.Index(i).Set(delSlice.Index(i).Elem())
+					}
+					args = []interface{}{arr.Addr().Interface()}
+				} else {
+					arr := reflect.New(reflect.ArrayOf(n, reflect.PtrTo(r.Elem))).Elem()
+					for i := 0; i < n; i++ {
+						arr.Index(i).Set(delSlice.Index(i))
+					}
+					args = []interface{}{arr.Interface()}
+				}
+			}
+			if op.Alias {
+				// the named target IS the record the first owner holds in its relation field
+				fv := reflect.ValueOf(&owners[0]).Elem().FieldByName(r.Name)
+				var held reflect.Value
+				switch fv.Kind() {
+				case reflect.Struct:
+					held = fv.Addr()
+				case reflect.Ptr:
+					held = fv
+				case reflect.Slice:
+					if fv.Len() > 0 {
+						held = fv.Index(0)
+						if held.Kind() != reflect.Ptr {
+							held = held.Addr()
+						}
+					}
+				}
+				if held.IsValid() && !(held.Kind() == reflect.Ptr && held.IsNil()) && getID(held) != 0 {
+					op.Del = []int64{getID(held)}
+					args = []interface{}{held.Interface()}
+				}
+			}
 			err = assoc.Delete(args...)
 		case "clear":
 			err = assoc.Clear()
 		}
-		ex := OpIn{Op: op.Op, Unscoped: op.Unscoped, Del: op.Del, None: op.None, SamePtr: op.SamePtr, AsSlice: op.AsSlice}
+		ex := OpIn{Op: op.Op, Unscoped: op.Unscoped, Del: op.Del, None: op.None, SamePtr: op.SamePtr, AsSlice: op.AsSlice, Array: op.Array, Alias: op.Alias}
 		for vi, os := range objs {
 			ids := []int64{}
 			for oi, o := range os {
@@ -841,6 +901,10 @@ func genInput(r *lib.Rng, maxOps int, edge bool) Input {
 				used := map[int64]bool{}
 				for j := 0; j < k; j++ {
 					t := pickFor(oi, used)
+					// belongs to / many2many: several owners of the handle often SHARE a target
+					if (rel.Kind == "KBelongs" || rel.Kind == "KM2M") && oi > 0 && j < len(op.Vals[oi-1]) && op.Vals[oi-1][j] != 0 && r.Chance(1, 2) {
+						t = op.Vals[oi-1][j]
+					}
 					if t != 0 {
 						given[t] = oi
 						used[t] = true
@@ -854,6 +918,9 @@ func genInput(r *lib.Rng, maxOps int, edge bool) Input {
 				op.Vals = append(op.Vals, v)
 			}
 			op.SamePtr, op.AsSlice = r.Bool(), r.Bool()
+			if r.Chance(1, 5) {
+				op.Array = lib.Pick(r, []string{"values", "ptrs"})
+			}
 		case "delete":
 			k := r.Range(1, 3)
 			if edge && r.Chance(1, 4) {
@@ -866,6 +933,12 @@ func genInput(r *lib.Rng, maxOps int, edge bool) Input {
 				op.Del = append([]int64{op.Del[0]}, op.Del...)
 			}
 			op.SamePtr, op.AsSlice = r.Bool(), r.Bool()
+			switch x := r.Intn(10); {
+			case x < 2:
+				op.Array = lib.Pick(r, []string{"values", "ptrs"})
+			case x < 4:
+				op.Alias = true // name the record the first owner holds (when it holds one)
+			}
 		}
 		in.Ops = append(in.Ops, op)
 	}
@@ -1009,6 +1082,59 @@ func containsI(xs []int64, x int64) bool {
 	return false
 }
 
+// targetedInputs: a small deterministic stream run in EVERY tier.  For every relation, on a struct handle
+// and on slice handles of two and three owners (kept or fresh association handle): targets are linked
+// (shared between the owners where the relation kind allows it), then named for Delete through the record
+// the first owner holds in its own relation field (alias), as a Go array, as a slice and variadically,
+// scoped and Unscoped; then linked again and replaced by arrays.
+func targetedInputs() []Input {
+	var out []Input
+	names := []string{"One", "Many", "Notes", "Badge", "Target", "Tags", "PTags", "OneV", "TargetV", "Friends", "XTags", "Stickers", "CKids", "CTags"}
+	for _, rn := range names {
+		rel := rels[rn]
+		shared := rel.Kind == "KBelongs" || rel.Kind == "KM2M"
+		single := rel.Kind == "KHasOne" || rel.Kind == "KBelongs"
+		for n := 1; n <= 3; n++ {
+			for _, same := range []bool{false, true} {
+				in := Input{Rel: rn, Single: n == 1, SameHandle: same, Targets: []int64{11, 12, 13, 14}}
+				for i := 0; i < n; i++ {
+					in.Owners = append(in.Owners, int64(1+i))
+				}
+				vals := func(base int64) [][]int64 {
+					var vs [][]int64
+					for i := 0; i < n; i++ {
+						t := base
+						if !shared {
+							t = base + int64(i)
+						}
+						if single {
+							vs = append(vs, []int64{t})
+						} else {
+							vs = append(vs, []int64{t, 14})
+							if !shared {
+								vs[i] = []int64{t}
+							}
+						}
+					}
+					return vs
+				}
+				in.Ops = []OpIn{
+					{Op: "append", Vals: vals(11)},
+					{Op: "delete", Alias: true},
+					{Op: "append", Vals: vals(11), Array: "values"},
+					{Op: "delete", Del: []int64{11, 12}, Array: "ptrs"},
+					{Op: "replace", Vals: vals(11), Array: "ptrs"},
+					{Op: "delete", Alias: true, Unscoped: true},
+					{Op: "replace", Vals: vals(12), Array: "values"},
+					{Op: "delete", Del: []int64{12, 13}, Array: "values", Unscoped: true},
+				}
+				out = append(out, in)
+			}
+		}
+	}
+	return out
+}
+
 func readInput(path string) Input {
 	b, err := os.ReadFile(path)
 	lib.Must(err)
@@ -1073,6 +1199,9 @@ func main() {
 	for _, f := range lib.CorpusFiles(a.Corpus) {
 		add("corpus", readInput(f))
 	}
+	for _, in := range targetedInputs() {
+		add("targeted", in)
+	}
 	r := lib.NewRng(a.Seed)
 	budget, maxOps := 600, 8
 	if a.Tier == "thorough" {
@@ -1122,6 +1251,6 @@ func main() {
 		out.Count("known_shape", sig(in))
 		add(kind, in)
 	}
-	out.Extra["rule"] = "cases = histories of 1..8 (thorough 12) operations Append/Replace/Delete/Clear, each scoped or Unscoped, on one relation of kind {has one (pointer field / field by value), has many (by tags / by naming convention), polymorphic has many and polymorphic has one (next to rows of ANOTHER owner type that carry the same owner ids, and that may be moved into the relation or named in its Delete), belongs to, belongs to by value, many2many with struct elements / pointer elements / every key named by tags / self-referential, polymorphic with renamed type and id columns, has many / many2many whose TARGETS have composite string keys that differ only in where the identity-key separator and escape character sit}, optionally with Session{FullSaveAssociations: true}, through db.Model(&owner) or db.Model(&owners) (a fresh *Association per call, or - one history in five - ONE handle kept and reused for every operation, Count and Find) with 1..3 owners that start without links, next to 0..2 outside owners with existing links; every operation also with no target at all (Append(), Replace(), Delete()); targets are new records, existing unlinked rows, rows linked to the same owner, rows linked to outside owners, and duplicates (equal copies or THE SAME object repeated inside a slice argument and followed by further targets; variadic or one slice argument); Count(), Find(), raw foreign keys / join rows of the handle AND of every other owner / owner type, the target table and the in-memory fields are read after every operation; domain: for has one / has many / polymorphic a target is never given to two different owners of one handle; distinct = distinct (relation, handle, table sizes, operation sequence with sizes) shapes; non-trivial = the stored links change at least twice"
+	out.Extra["rule"] = "cases = histories of 1..8 (thorough 12) operations Append/Replace/Delete/Clear, each scoped or Unscoped, on one relation of kind {has one (pointer field / field by value), has many (by tags / by naming convention), polymorphic has many and polymorphic has one (next to rows of ANOTHER owner type that carry the same owner ids, and that may be moved into the relation or named in its Delete), belongs to, belongs to by value, many2many with struct elements / pointer elements / every key named by tags / self-referential, polymorphic with renamed type and id columns, has many / many2many whose TARGETS have composite string keys that differ only in where the identity-key separator and escape character sit}, optionally with Session{FullSaveAssociations: true}, through db.Model(&owner) or db.Model(&owners) (a fresh *Association per call, or - one history in five - ONE handle kept and reused for every operation, Count and Find) with 1..3 owners that start without links, next to 0..2 outside owners with existing links; every operation also with no target at all (Append(), Replace(), Delete()); targets are new records, existing unlinked rows, rows linked to the same owner, rows linked to outside owners, and duplicates (equal copies or THE SAME object repeated inside a slice argument and followed by further targets; variadic, one slice argument, or a Go array &[N]T / [N]*T; Delete may name the very record held by the first owner's relation field); Count(), Find(), raw foreign keys / join rows of the handle AND of every other owner / owner type, the target table and the in-memory fields are read after every operation; domain: for has one / has many / polymorphic a target is never given to two different owners of one handle; distinct = distinct (relation, handle, table sizes, operation sequence with sizes) shapes; non-trivial = the stored links change at least twice"
 	lib.Must(out.Flush())
 }
